@@ -204,6 +204,10 @@ def run_small(res, work, tier, seed):
             left -= k
         ops = _ops_for(rng, lens) + _dec_ops(rng, n * 2 + 4)
         add("rt", l1, l2, inp, ops)
+        if 0 < n <= 100:
+            # the same input once more, byte by byte (or in one piece if it was fed byte-wise): split independence (C02)
+            alt = [n] if all(k == 1 for k in lens) else [1] * n
+            add("enc", l1, l2, inp, _ops_for(rng, alt, drains=False))
         if rng.random() < 0.3:
             # arbitrary / corrupted string for the decoder
             m = rng.choice([1, 2, 3, 5, 8, 12])
@@ -216,6 +220,7 @@ def run_small(res, work, tier, seed):
     tv = tlc.validate_trace("HcobsTrace", "HcobsTrace.cfg", trace, os.path.join(work, "tv"), timeout=1800)
     by_id = {r["run"]: r for r in runs}
     res.add_tv(tv, by_id, "codec", "H3 edge-cover + random tiny-limit", crash_props=("C01", "C07", "C05"))
+    _attach_groups(res, runs)
     cnt = _count_nontrivial(runs)
     rule = ("distinct codec runs (limits, input, operation sequence) fed in >= 2 pieces whose input contains "
             "FE or FD; runs = edge-cover paths of the HcobsMC graphs executed through hook H3 (%d) + seeded random "
@@ -521,6 +526,7 @@ def run_prod(res, work, tier, seed):
         tv = tlc.validate_trace("HcobsTrace", "HcobsTrace.cfg", trace, os.path.join(work, "tv"),
                                 timeout=3000, xmx="12g")
         res.add_tv(tv, {r["run"]: r for r in b}, "codec", "production limits", crash_props=("C01", "C07", "C05"))
+        _attach_groups(res, b)
         os.remove(trace)
     cnt = _count_nontrivial(runs)
     rule = ("distinct production-limit runs (real Encoder -> real Decoder round trips, %d; decoder negative "
@@ -535,9 +541,23 @@ def run_prod(res, work, tier, seed):
                                      "input_len": len(runs[8]["cfg"]["input"]), "ops": runs[8]["ops"][:10]})
 
 
+def _attach_groups(res, runs):
+    """the split-independence monitor compares a run with the previous run of the same input: its replay needs both"""
+    by_iid = {}
+    for r in runs:
+        if r["cfg"].get("iid", 0) > 0:
+            by_iid.setdefault(r["cfg"]["iid"], []).append(r)
+    for v in res.data["viol"]:
+        run = (v.get("replay") or {}).get("run") or {}
+        iid = (run.get("cfg") or {}).get("iid", 0)
+        if v["prop"] == "C02" and "depends on segmentation" in v["what"] and iid > 0 and "group" not in v["replay"]:
+            v["replay"]["group"] = by_iid.get(iid, [run])[:8]
+
+
 def replay(rep, work):
     run = rep["run"]
-    trace = core.drive("codec", [run], work, "replay")
+    group = rep.get("group") or [run]
+    trace = core.drive("codec", group, work, "replay")
     tv = tlc.validate_trace("HcobsTrace", "HcobsTrace.cfg", trace, os.path.join(work, "tv"), xmx="8g")
     return tv["viol"] + core.crash_viols(("C01", "C07", "C05"))
 
